@@ -113,7 +113,13 @@ class Prop:
         return env.split(',') if env else self.classes
 
     def gen_spec(self, rng):
-        return gen.gen_program(rng, self.get_classes(), faults=self.faults and rng.random() < 0.75, n_max=self.n_max)
+        return gen.gen_program(rng, self.weighted_classes(), faults=self.faults and rng.random() < 0.75,
+                               n_max=self.n_max)
+
+    def weighted_classes(self):
+        # the recurrent and cross-scope classes carry most of the schedule-sensitive behaviour: drawn twice as often
+        cl = list(self.get_classes())
+        return cl + [c for c in cl if c in ('rec', 'hub')]
 
     def gen(self, rng):
         spec = self.gen_spec(rng)
@@ -345,7 +351,7 @@ class C05(Prop):
             'outcome is a failure')
 
     def gen_spec(self, rng):
-        return gen.gen_program(rng, self.get_classes(), faults=True, n_fault_nodes=rng.choice([1, 1, 2, 2, 3, 4]),
+        return gen.gen_program(rng, self.weighted_classes(), faults=True, n_fault_nodes=rng.choice([1, 1, 2, 2, 3, 4]),
                                n_max=self.n_max)
 
     def nontrivial(self, case, rec, refs):
@@ -469,7 +475,7 @@ class C12(Prop):
             'get_default called with the body kwargs; non-trivial = a retry or default fired')
 
     def gen_spec(self, rng):
-        return gen.gen_program(rng, self.get_classes(), faults=True, n_fault_nodes=rng.choice([1, 2, 2, 3, 4]),
+        return gen.gen_program(rng, self.weighted_classes(), faults=True, n_fault_nodes=rng.choice([1, 2, 2, 3, 4]),
                                n_max=self.n_max)
 
     def nontrivial(self, case, rec, refs):
@@ -657,6 +663,10 @@ class C13(Prop):
             if injected and oc[0] == 'raised':
                 vs.append(Violation({'C13'}, 'cancel_surfaced_as_other_exception',
                                     f'canceller saw {oc[1]} {oc[2]} instead of CancelledError'))
+            if injected and oc[0] == 'error' and oc[1] == 'CancelledError':
+                vs.append(Violation({'C13'}, 'cancel_swallowed',
+                                    'the cancellation was converted into an ordinary error result: the canceller does '
+                                    'not see CancelledError'))
         return vs
 
     def nontrivial(self, case, rec, refs):
